@@ -115,6 +115,14 @@ impl Known {
             if e["property"].as_str() != Some(&case.property) {
                 continue;
             }
+            // entries of another kind (lemma findings) never match a program case, and an entry that
+            // names no program, backend or note at all would match everything: it matches nothing
+            if e["probe_far_displacement"].is_boolean() || e["form_contains"].is_string() {
+                continue;
+            }
+            if !["backend", "program", "program_contains", "note_contains", "mode", "width"].iter().any(|k| !e[*k].is_null()) {
+                continue;
+            }
             if let Some(b) = e["backend"].as_str() {
                 if b != case.backend.name() {
                     continue;
